@@ -15,3 +15,11 @@ add("C03", "exploration",
     "Trusts net/http's client-side response parser used by the harness client. Date and Content-Type added by the front hop when the "
     "backend sent none, and re-framing (Content-Length/Transfer-Encoding/Trailer/Connection), are allowed.",
     "property-based testing (rapid): grammar-generated responses, two-sided round-trip oracle at a raw client + race detector", "3/C03")
+add("C01", "exploration",
+    "Generated sets of 2-256 concurrent clients (body sizes, backend latencies, start offsets, statuses, framings; GOMAXPROCS of both "
+    "binaries generated) run against the real server and agent binaries built with -race; each request carries a unique token that the "
+    "harness backend verifies on arrival and echoes into header, cookie, body and trailer together with a per-invocation nonce. Any "
+    "foreign token, duplicated nonce, missing response or race/fatal report is a violation. Interleavings are sampled (the race "
+    "detector amplifies), not enumerated.",
+    "The Go scheduler of the binaries is not controlled; concurrency is perturbed through generated latencies/offsets/GOMAXPROCS only.",
+    "property-based testing (rapid): generated concurrent request sets, token/nonce correlation oracle + race detector", "3/C01")
